@@ -991,6 +991,11 @@ static void ExpandMacro(PMacroRec OneMacro) {
 static void ExpandEXITM(void) {
     WasMACRO = True;
 
+    /* a line in a skipped branch has no effect, not even a diagnostic */
+
+    if (!IfAsm) {
+        return;
+    }
     if (!ChkArgCnt(0, 0))
         ;
     else if (!FirstInputTag) {
@@ -1012,6 +1017,9 @@ static void ExpandSHIFT(void) {
 
     WasMACRO = True;
 
+    if (!IfAsm) {
+        return;
+    }
     if (!ChkArgCnt(0, 0))
         ;
     else if (!FirstInputTag) {
